@@ -2,6 +2,7 @@ import ColoVerif.Proofs.DetPlaceFrame
 import ColoVerif.Proofs.DetPlaceInit
 import ColoVerif.Proofs.DetPlaceInitOk
 import ColoVerif.Proofs.DetPlaceLegal
+import ColoVerif.Proofs.DetPlaceCan
 import ColoVerif.Model.LegacyLegalize
 import ColoVerif.Model.LegacyDetPlace
 /-!
@@ -12,8 +13,15 @@ Model: `ColoVerif.DetPlace` (Model/DetPlace.lean), the doubly linked row lists o
 by the primitives stream and the history replay of `harness/h_C02.cpp`.
 
 `Inv` = every test of `DetailedPlacement::check()` + symmetry of the links + orientation ≠ INVALID
-+ y on the row + positive widths of optimised cells; it is decidable and evaluated by the driver on
-every constructed instance (`init ok`).
++ y on the row + positive widths of optimised cells; it is decidable and the driver evaluates it
+(`inv` → `inv true`) on every constructed instance and after every primitive / replayed move.
+
+Theorems: `inv_init` (constructor ⇒ `Inv`, all placed), `fromCircuit_ok_of_legal` (constructor does not
+fail on a legal circuit), `inv_step*` / `inv_run` (every move keeps `Inv`), `swap_never_throws` /
+`insert_never_throws` (feasible moves are carried out), `ignored_frame`, `inv_legal` (every state
+reached from a legal circuit exports a legal circuit, C01's `Legal`).  `Legalize.DomL` / `LegalL` are
+the verbatim copies of `C01.Dom` / `C01.Legal` (tied by `rfl` in Properties/C01.lean).
+Helper lemmas: Proofs/DetPlace{Inv,Frame,Init,Rows,InitOk,Legal,Can}.lean.
 -/
 namespace ColoVerif.C02
 open ColoVerif ColoVerif.DetPlace ColoVerif.DetPlace.State
@@ -150,7 +158,7 @@ theorem inv_legal (c : Circuit) (hd : Legalize.DomL c) (hl : Legalize.LegalL c)
       (exportPlacement s c).cells[i]? = some cl) := by
   obtain ⟨i0, a0, _⟩ := inv_init c s0 (fun cl hcl hf => ⟨(hd.2.1 cl hcl (by simpa using hf)).1, hv cl hcl hf⟩) e0
   have hI := run_inv i0 e
-  have hap := (allPlaced_iff s).2 (run_allPlaced ((allPlaced_iff s0).1 a0) e)
+  have hap := (Lg.allPlaced_iff s).2 (Lg.run_allPlaced ((Lg.allPlaced_iff s0).1 a0) e)
   obtain ⟨H, hrh, S⟩ := stateOf_of_run hd e0 e
   refine ⟨hI, hap, export_legal hd hl hrh S hI hap, ?_⟩
   intro i cl hg hf hh
@@ -163,14 +171,26 @@ theorem inv_legal (c : Circuit) (hd : Legalize.DomL c) (hl : Legalize.LegalL c)
 
 /-- the arithmetic fact behind `positionOnInsert` / `positionsOnSwap`: the C++ midpoint
 (truncating division) of a site that is wide enough lies inside the site -/
-theorem midpoint_in_site (b e w : Int) (h : b ≤ e - w) : b ≤ (b + e - w).tdiv 2 ∧ (b + e - w).tdiv 2 + w ≤ e := by
-  rcases Int.le_total 0 (b + e - w) with hs | hs
-  · rw [Int.tdiv_eq_ediv_of_nonneg hs]; omega
-  · have e1 : (b + e - w).tdiv 2 = -((-(b + e - w)) / 2) := by
-      have := Int.neg_tdiv (-(b + e - w)) 2
-      rw [Int.neg_neg] at this
-      rw [this, Int.tdiv_eq_ediv_of_nonneg (by omega)]
-    rw [e1]; omega
+theorem midpoint_in_site (b e w : Int) (h : b ≤ e - w) : b ≤ (b + e - w).tdiv 2 ∧ (b + e - w).tdiv 2 + w ≤ e :=
+  midpoint_ok b e w h
+
+/-- **`swap` never throws on a feasible move.**  On a state satisfying `Inv`, for optimised cells
+`c1`, `c2`: if `canSwap` answers true, `swap` (unplace both, place both — the `canPlace` tests inside
+`place` included) returns normally, in all three branches, and the new state satisfies `Inv`.  Hence
+`step` never returns an error on a swap the optimiser found feasible. -/
+theorem swap_never_throws {s : State} (h : Inv s) {c1 c2 : Int} (hl1 : s.liveCell c1 = true) (hl2 : s.liveCell c2 = true)
+    (hcan : s.canSwap c1 c2 = .ok true) : ∃ t, s.step (.swap c1 c2) = .ok t ∧ Inv t := by
+  obtain ⟨t, e⟩ := swap_succeeds h hl1 hl2 hcan
+  have e' : s.step (.swap c1 c2) = .ok t := by simp only [step, hl1, hl2, Bool.and_self, if_true]; exact e
+  exact ⟨t, e', step_inv h e'⟩
+
+/-- **`insert` never throws on a feasible move** (site = a valid row and a predecessor that is −1 or a
+placed cell of that row; the new abscissa is the `Int.tdiv` midpoint of the site, `midpoint_in_site`) -/
+theorem insert_never_throws {s : State} (h : Inv s) {c r p : Int} (hl : s.liveCell c = true) (hs : s.siteOk r p = true)
+    (hcan : s.canInsert c r p = .ok true) : ∃ t, s.step (.insert c r p) = .ok t ∧ Inv t := by
+  obtain ⟨t, e⟩ := insert_succeeds h hl hs hcan
+  have e' : s.step (.insert c r p) = .ok t := by simp only [step, hl, hs, Bool.and_self, if_true]; exact e
+  exact ⟨t, e', step_inv h e'⟩
 
 /-- F2 on the pre-fix constructor (kept in Model/LegacyDetPlace.lean): it throws on a legal placement
 over a fixed non-obstruction cell; the repaired one does not (corpus/C02/w1.txt replays it on the code) -/
@@ -202,6 +222,12 @@ example : (∀ cl ∈ tiny.cells, ¬ cl.fixed → 0 < cl.placedWidth ∧ cl.orie
 example : (match fromIspdCircuit tiny with
            | .ok s => decide (Inv s) && s.isIgnored 3 &&
                       (match s.run tinyOps with | .ok t => decide (Inv t) | .error _ => false)
+           | .error _ => false) = true := by decide
+
+-- non-vacuity of `swap_never_throws` / `insert_never_throws`: feasible moves exist on `tiny`'s state
+example : (match fromIspdCircuit tiny with
+           | .ok s => s.liveCell 0 && s.liveCell 1 && s.liveCell 2 && s.siteOk 0 0 &&
+                      (s.canSwap 0 1 == .ok true) && (s.canSwap 0 2 == .ok true) && (s.canInsert 2 0 0 == .ok true)
            | .error _ => false) = true := by decide
 
 /-! non-vacuity of `inv_legal`: its hypotheses hold for the legalized `tiny` (legality by
